@@ -10,7 +10,8 @@ CONSTANTS Lang, MaxLen, Mode      \* Lang: "path" | "pointer" | "relptr"; Mode: 
 
 \* TLC keeps strings as bytes when it spills states to disk, so lexemes outside ASCII are given by name
 \* ("EACUTE", "SUPER2") and spelled out by the recorder; "HUGE" stands for a run of 4400 nines (more digits
-\* than the host's integer conversion accepts), which no specification string could usefully carry; "SQRUN" /
+\* than the host's integer conversion accepts), which no specification string could usefully carry; "LIMIT4300" stands for a run of exactly 4300 nines
+\* (the most digits the host converts: one more digit after an addition and it cannot be printed); "SQRUN" /
 \* "DQRUN" / "RERUN" stand for an opening ' / " / slash followed by 70 backslashes (an unterminated literal with a long escape run)
 VARIABLES s, done
 vars == <<s, done>>
@@ -21,7 +22,7 @@ PathLex == << "$", "@", ".", "..", "[", "]", "(", ")", "?", "*", ",", ":", "'a'"
               "length(", "count(", "match(", "value(", "nosuch(", "#", "_", "~", "^", " | ", " & ", "undefined", " ", "\\", "'\\u00e9'", "'\\ud800'", "EACUTE", "0", "and", "not ",
               "1e400", "1.0e16", "1.5e1", "/a{99999999999999999999}/", "'a{99999999999999999999}'", "aaaaaaaaaaaaaaaaaaaaaaaaaaaaaaaaaaaaaaaa", "HUGE", "SQRUN", "DQRUN", "RERUN", "/(?u)a/a", "'(?a)(?u)a'", "-1.0e309", "1.0e-400", "<=", ">=" >>
 PtrLex == << "/", "~", "0", "1", "a", "-", "#", "\\u0041", "\\", "\\ud800", " ", "EACUTE", "%41", "~0", "~1", "~2", "-1", "01", "9007199254740993", "\\x", "SUPER2", "HUGE" >>
-RelLex == << "0", "1", "2", "10", "+", "-", "#", "/", "a", "~", "01", " ", "\\", "+0", "EACUTE", "HUGE" >>
+RelLex == << "0", "1", "2", "10", "+", "-", "#", "/", "a", "~", "01", " ", "\\", "+0", "EACUTE", "HUGE", "LIMIT4300" >>
 Lex == CASE Lang = "path" -> PathLex [] Lang = "pointer" -> PtrLex [] Lang = "relptr" -> RelLex [] OTHER -> <<>>
 
 \* patch documents: operation records whose members are given as codes the recorder decodes
